@@ -1,9 +1,12 @@
 (* Acceptance characterisation of the Monero address decoder (Model/AddrXmr.v: _XmrAddrUtils.DecodeAddr behind
    XmrAddrDecoder and XmrIntegratedAddrDecoder) -- property C10, address level.
 
-   The model is the library's code as it stands, and the full statement the property wants for the integrated
-   decoder -- "an accepted string carries the expected payment id" -- is FALSE of it: the length test is a
-   try/except that first accepts the plain length, whatever payment id was asked for (finding C10-XMR-INTEG-LEN). *)
+   The model follows the repaired code (finding C10-XMR-INTEG-LEN, fixed: before, the length test was a try/except
+   that first accepted the plain length whatever payment id was asked for): without an expected payment id the payload
+   has the plain layout; with one, the id has 8 bytes, the payload the with-id length and it ends in that id.
+   So: accepted <-> the decoded bytes are [addr_bytes net spend view id] for two valid keys; and, given canonicity of
+   the block Base58 decoder of Model/XmrB58.v (proved by the contributor "link" in Lemmas/LinkXmr.v,
+   b58x_encode_decode; taken as a hypothesis here), accepted <-> the string is the address encoder's output. *)
 From Coq Require Import NArith Arith List Lia Bool.
 From BU Require Import Base.Exn Base.Radix Base.Bytes Gen.ConstsCardmon.
 From BU Require Import Model.EdLib Model.AddrXmr Lemmas.CardmonConstsOk Lemmas.EdLib Lemmas.AddrXmr.
@@ -29,6 +32,7 @@ Section Accept.
   Notation checksum := (checksum keccak).
   Notation decode_addr := (decode_addr keccak G pdec).
   Notation encode_key := (encode_key keccak G pdec).
+  Notation addr_bytes := (addr_bytes keccak).
   Notation valid := (pub_is_valid G pdec).
 
   Lemma ck_len p : length (checksum p) = xmr_addr_cklen.
@@ -46,16 +50,19 @@ Section Accept.
     - rewrite !firstn_length, !skipn_length. lia.
   Qed.
 
-  (* accepted iff: block-Base58 text of  net ‖ spend ‖ view ‖ rest ‖ Keccak checksum,  both keys valid, and the
-     rest is EMPTY (whatever payment id is expected) or the expected 8-byte payment id *)
+  Definition pid_of (payid : option (list N)) : list N := match payid with Some p => p | None => [] end.
+  Definition pid_ok (payid : option (list N)) : Prop :=
+    match payid with Some p => length p = xmr_payid_len | None => True end.
+
+  (* accepted iff: block-Base58 text of  net ‖ spend ‖ view ‖ expected payment id (if any) ‖ Keccak checksum,
+     both keys valid, the expected id 8 bytes long *)
   Theorem decode_addr_accepts_iff s net payid out :
     decode_addr s net payid = Ok out <->
-    exists ps pv rest,
-      b58x_decode s = Ok ((net ++ ps ++ pv ++ rest) ++ checksum (net ++ ps ++ pv ++ rest)) /\
-      length ps = 32%nat /\ length pv = 32%nat /\ valid ps = true /\ valid pv = true /\ out = ps ++ pv /\
-      (rest = [] \/ (length rest = xmr_payid_len /\ payid = Some rest)).
+    exists ps pv,
+      b58x_decode s = Ok (addr_bytes net ps pv (pid_of payid)) /\ pid_ok payid /\
+      length ps = 32%nat /\ length pv = 32%nat /\ valid ps = true /\ valid pv = true /\ out = ps ++ pv.
   Proof.
-    unfold AddrXmr.decode_addr. rewrite ed_pub_len_32. split.
+    unfold AddrXmr.decode_addr, AddrXmr.addr_bytes. rewrite ed_pub_len_32. split.
     - destruct (b58x_decode s) as [dec|] eqn:D; cbn [bind]; [|discriminate].
       set (payload := drop_last xmr_addr_cklen dec).
       destruct (list_eqb (take_last xmr_addr_cklen dec) (checksum payload)) eqn:C; [|discriminate].
@@ -63,27 +70,26 @@ Section Accept.
       apply list_eqb_spec in C, Pn. set (body := skipn (length net) payload).
       assert (Epl : payload = net ++ body) by (unfold body; rewrite Pn at 1; symmetry; apply firstn_skipn).
       assert (Edec : dec = payload ++ checksum payload) by (rewrite <- C; symmetry; apply drop_take_last).
-      destruct (Nat.eqb_spec (length body) (2 * 32)) as [L64|N64]; cbn [bind].
-      + destruct (valid (firstn 32 body)) eqn:V1; [|discriminate].
-        destruct (valid (slice 32 (2 * 32) body)) eqn:V2; [|discriminate]. intros H. apply Ok_inj in H. subst out.
-        destruct (body_split body ltac:(lia)) as (Eb & L1 & L2 & L3).
-        exists (firstn 32 body), (slice 32 (2 * 32) body), (skipn 64 body).
-        assert (Z : skipn 64 body = []) by (apply length_zero_iff_nil; lia).
-        rewrite <- Eb, <- Epl, <- Edec. repeat split; auto.
-      + destruct (Nat.eqb_spec (length body) (2 * 32 + xmr_payid_len)) as [L72|]; cbn [bind]; [|discriminate].
-        destruct payid as [p|]; [|discriminate].
-        destruct (Nat.eqb_spec (length p) xmr_payid_len) as [Lp|]; [|discriminate].
+      destruct payid as [p|]; cbn [pid_of pid_ok].
+      + destruct (Nat.eqb_spec (length p) xmr_payid_len) as [Lp|]; [|discriminate].
+        destruct (Nat.eqb_spec (length body) (2 * 32 + xmr_payid_len)) as [L72|]; [|discriminate].
         destruct (list_eqb p (take_last xmr_payid_len body)) eqn:Ep; cbn [bind]; [|discriminate].
         destruct (valid (firstn 32 body)) eqn:V1; [|discriminate].
         destruct (valid (slice 32 (2 * 32) body)) eqn:V2; [|discriminate]. intros H. apply Ok_inj in H. subst out.
         apply list_eqb_spec in Ep. pose proof xmr_payid_len_8 as P8.
         destruct (body_split body ltac:(lia)) as (Eb & L1 & L2 & L3).
-        exists (firstn 32 body), (slice 32 (2 * 32) body), (skipn 64 body).
-        rewrite <- Eb, <- Epl, <- Edec. repeat split; auto. right.
+        exists (firstn 32 body), (slice 32 (2 * 32) body).
         assert (T : take_last xmr_payid_len body = skipn 64 body) by (unfold take_last; f_equal; lia).
-        split; [lia|]. rewrite <- T, <- Ep. reflexivity.
-    - intros (ps & pv & rest & D & L1 & L2 & V1 & V2 & -> & R). rewrite D. cbn [bind Ok].
-      set (payload := net ++ ps ++ pv ++ rest).
+        rewrite Ep, T, <- Eb, <- Epl, <- Edec. repeat split; auto; lia.
+      + destruct (Nat.eqb_spec (length body) (2 * 32)) as [L64|]; cbn [bind]; [|discriminate].
+        destruct (valid (firstn 32 body)) eqn:V1; [|discriminate].
+        destruct (valid (slice 32 (2 * 32) body)) eqn:V2; [|discriminate]. intros H. apply Ok_inj in H. subst out.
+        destruct (body_split body ltac:(lia)) as (Eb & L1 & L2 & L3).
+        exists (firstn 32 body), (slice 32 (2 * 32) body).
+        assert (Z : skipn 64 body = []) by (apply length_zero_iff_nil; lia).
+        rewrite Z in Eb. rewrite <- Eb, <- Epl, <- Edec. repeat split; auto.
+    - intros (ps & pv & D & Hp & L1 & L2 & V1 & V2 & ->). rewrite D. cbn [bind Ok].
+      set (rest := pid_of payid) in *. set (payload := net ++ ps ++ pv ++ rest).
       rewrite (drop_last_app' xmr_addr_cklen payload _ (ck_len payload)).
       rewrite (take_last_app' xmr_addr_cklen payload _ (ck_len payload)). rewrite list_eqb_refl.
       assert (F : firstn (length net) payload = net).
@@ -99,61 +105,73 @@ Section Accept.
         rewrite firstn_app, Nat.sub_diag, firstn_all. simpl. apply app_nil_r. }
       rewrite Fs, Fv, V1, V2.
       assert (LB : length (ps ++ pv ++ rest) = (64 + length rest)%nat) by (rewrite !app_length; lia).
-      rewrite LB. pose proof xmr_payid_len_8 as P8. destruct R as [->|[Lr ->]].
-      + reflexivity.
-      + rewrite Lr, P8. replace (64 + 8 =? 2 * 32)%nat with false by reflexivity.
-        replace (64 + 8 =? 2 * 32 + 8)%nat with true by reflexivity. cbn [bind].
-        rewrite <- P8, <- Lr, Nat.eqb_refl.
-        replace (take_last (length rest) (ps ++ pv ++ rest)) with rest.
+      rewrite LB. pose proof xmr_payid_len_8 as P8. unfold rest. destruct payid as [p|]; cbn [pid_of pid_ok] in *.
+      + rewrite Hp, Nat.eqb_refl, P8. replace (64 + 8 =? 2 * 32 + 8)%nat with true by reflexivity.
+        rewrite <- P8, <- Hp.
+        replace (take_last (length p) (ps ++ pv ++ p)) with p.
         2:{ rewrite app_assoc. symmetry. apply take_last_app. }
         rewrite list_eqb_refl. reflexivity.
+      + reflexivity.
   Qed.
 
-  (* the standard decoder (no payment id): only the plain layout *)
-  Theorem decode_standard_accepts_iff s net out :
-    decode_addr s net None = Ok out <->
-    exists ps pv, b58x_decode s = Ok ((net ++ ps ++ pv) ++ checksum (net ++ ps ++ pv)) /\
-      length ps = 32%nat /\ length pv = 32%nat /\ valid ps = true /\ valid pv = true /\ out = ps ++ pv.
+  (* a valid 32-byte key is what the key layer of the encoder returns unchanged *)
+  Lemma valid_from_bytes k : length k = 32%nat -> valid k = true -> pub_from_bytes G pdec k = Ok k.
   Proof.
-    rewrite decode_addr_accepts_iff. split.
-    - intros (ps & pv & rest & D & L1 & L2 & V1 & V2 & E & [->|[_ X]]); [|discriminate].
-      rewrite !app_nil_r in D. exists ps, pv. repeat split; assumption.
-    - intros (ps & pv & D & L1 & L2 & V1 & V2 & E). exists ps, pv, []. rewrite !app_nil_r. repeat split; auto.
+    intros L V. unfold pub_is_valid in V. destruct (pub_from_bytes G pdec k) as [k'|] eqn:E; [|discriminate].
+    destruct (pub_from_bytes_ok G pdec _ _ E) as (-> & _). unfold strip_pub_prefix.
+    rewrite L, ed_pub_len_32. reflexivity.
   Qed.
 
-  (* what DOES hold for the integrated decoder: the payload is the plain one (NO payment id at all) or the one
-     carrying the expected id; the 77-byte (with-id) length is the exact extra condition *)
-  Theorem decode_integrated_partial s net p out dec :
-    decode_addr s net (Some p) = Ok out -> b58x_decode s = Ok dec ->
-    length dec = (length net + 2 * 32 + xmr_payid_len + xmr_addr_cklen)%nat ->
-    exists ps pv, dec = (net ++ ps ++ pv ++ p) ++ checksum (net ++ ps ++ pv ++ p) /\ length p = xmr_payid_len /\
-      length ps = 32%nat /\ length pv = 32%nat /\ valid ps = true /\ valid pv = true /\ out = ps ++ pv.
+  (* the corollary the property wants, exact equality (Base58 has no case rule): every accepted string IS the
+     address encoder's output -- XmrAddrEncoder for payid = None, XmrIntegratedAddrEncoder for payid = Some p --
+     for the returned keys; and conversely.  [b58x_canon] is canonicity of the block Base58 decoder. *)
+  Hypothesis keccak_ok : forall x, bytes_ok (keccak x).
+  Hypothesis b58x_canon : forall s b, b58x_decode s = Ok b -> b58x_encode b = s /\ bytes_ok b.
+
+  Lemma strip_32 k : length k = 32%nat -> strip_pub_prefix k = k.
+  Proof. intros L. unfold strip_pub_prefix. rewrite L, ed_pub_len_32. reflexivity. Qed.
+
+  Theorem decode_addr_accepts_iff_encoder s net payid out : bytes_ok net ->
+    (match payid with Some p => bytes_ok p | None => True end) ->
+    (decode_addr s net payid = Ok out <->
+     exists ps pv, out = ps ++ pv /\ length ps = 32%nat /\ length pv = 32%nat /\ bytes_ok ps /\ bytes_ok pv /\
+                   valid ps = true /\ valid pv = true /\ encode_key ps pv net payid = Ok s).
   Proof.
-    intros H D L. apply decode_addr_accepts_iff in H. destruct H as (ps & pv & rest & D' & L1 & L2 & V1 & V2 & E & R).
-    rewrite D in D'. apply Ok_inj in D'. subst dec. exists ps, pv.
-    destruct R as [->|[Lr Ep]].
-    - exfalso. rewrite !app_length, ck_len in L. simpl in L. pose proof xmr_payid_len_8. lia.
-    - apply Some_inj in Ep. subst rest. repeat split; auto.
+    intros Hn Hb. split.
+    - intros H. apply decode_addr_accepts_iff in H. destruct H as (ps & pv & D & Hp & L1 & L2 & V1 & V2 & ->).
+      exists ps, pv. destruct (b58x_canon _ _ D) as [C B].
+      unfold AddrXmr.addr_bytes in B. apply bytes_ok_app in B. destruct B as [B _].
+      apply bytes_ok_app in B. destruct B as [_ B]. apply bytes_ok_app in B. destruct B as [B1 B].
+      apply bytes_ok_app in B. destruct B as [B2 _].
+      repeat split; auto. unfold AddrXmr.encode_key.
+      assert (G1 : match payid with Some p => (length p =? xmr_payid_len)%nat | None => true end = true).
+      { destruct payid as [p|]; [apply Nat.eqb_eq; exact Hp|reflexivity]. }
+      rewrite G1, (valid_from_bytes ps L1 V1), (valid_from_bytes pv L2 V2). cbn [bind Ok]. rewrite <- C. reflexivity.
+    - intros (ps & pv & -> & L1 & L2 & B1 & B2 & V1 & V2 & E).
+      pose proof (decode_encode_key keccak G pdec keccak_len keccak_ok ps pv net payid s Hn B1 B2 Hb E) as R.
+      rewrite (strip_32 ps L1), (strip_32 pv L2) in R. exact R.
   Qed.
 End Accept.
 
-(* Full statement for XmrIntegratedAddrDecoder:
-     decode_addr s net (Some p) = Ok out  ->  the decoded payload ends in the payment id p
-   is FALSE (finding C10-XMR-INTEG-LEN).  Instance: constant-zero "Keccak", every 32-byte string a key; the STANDARD
-   address text of (spend, view) = (0^32, 0^32) under net byte 19 -- which carries no payment id -- is accepted
-   by the integrated decoder for EVERY expected payment id. *)
+(* The witness of the former refutation (finding C10-XMR-INTEG-LEN): the STANDARD address text of (0^32, 0^32) under
+   net byte 19 -- 69 bytes, no room for a payment id -- was accepted by the integrated decoder for every expected id;
+   it is now refused for every expected id.  Instance: constant-zero Keccak, every 32-byte string a key. *)
 Definition zero_keccak (_ : list N) : list N := repeat 0 32.
 Definition all_keys (_ : list N) : option unit := Some tt.
 
-Theorem integrated_payment_id_refuted : exists s net dec,
+Theorem integrated_rejects_plain_payload : exists s net,
   encode_key zero_keccak unit all_keys (repeat 0 32) (repeat 0 32) net None = Ok s /\
-  b58x_decode s = Ok dec /\ length dec = (length net + 2 * 32 + xmr_addr_cklen)%nat /\
-  forall p, decode_addr zero_keccak unit all_keys s net (Some p) = Ok (repeat 0 64).
+  decode_addr zero_keccak unit all_keys s net None = Ok (repeat 0 64) /\
+  forall p, decode_addr zero_keccak unit all_keys s net (Some p) = Err ValueError.
 Proof.
-  exists (b58x_encode (addr_bytes zero_keccak [19] (repeat 0 32) (repeat 0 32) [])), [19],
-         (addr_bytes zero_keccak [19] (repeat 0 32) (repeat 0 32) []).
-  split; [vm_compute; reflexivity|]. split; [vm_compute; reflexivity|]. split; [vm_compute; reflexivity|].
-  intros p. apply (decode_addr_accepts_iff zero_keccak unit all_keys (fun _ => eq_refl)).
-  exists (repeat 0 32), (repeat 0 32), []. split; [vm_compute; reflexivity|].
-  repeat split; auto.
+  exists (b58x_encode (addr_bytes zero_keccak [19] (repeat 0 32) (repeat 0 32) [])), [19].
+  split; [vm_compute; reflexivity|]. split; [vm_compute; reflexivity|].
+  intros p. unfold AddrXmr.decode_addr.
+  replace (b58x_decode (b58x_encode (addr_bytes zero_keccak [19] (repeat 0 32) (repeat 0 32) [])))
+    with (@Ok (list N) (addr_bytes zero_keccak [19] (repeat 0 32) (repeat 0 32) [])) by (vm_compute; reflexivity).
+  cbn [bind Ok].
+  replace (list_eqb _ _) with true by (vm_compute; reflexivity).
+  replace (list_eqb [19] _) with true by (vm_compute; reflexivity).
+  destruct (length p =? xmr_payid_len)%nat; [|reflexivity].
+  replace (length _ =? 2 * ed_pub_len + xmr_payid_len)%nat with false by (vm_compute; reflexivity). reflexivity.
 Qed.
